@@ -220,6 +220,8 @@ type hdRun struct {
 }
 
 type hdHeldJoin struct {
+	sess *ClientSession // the session whose join is held
+	cut  int            // its connection, cut while the join is outstanding
 	gate chan struct{}
 	room int
 	rs   int
@@ -398,6 +400,8 @@ func (r *hdRun) joinRequest(o *hdOp) ([]byte, int, string) {
 	}
 	return data, rs, rep
 }
+
+func s_connIndexOf(s *hdSystem, sess *ClientSession) int { return s.connIndex(sess.GetClient()) }
 
 // canHold: the join of this op will ask the backend (so its reply can be held back) and the session can be resumed
 // on the new connection: a client session attached to connection C that is not already in the room, C2 unused.
@@ -645,7 +649,8 @@ func (r *hdRun) exec(o *hdOp) string {
 			r.insert = []hdOp{{K: "drop", C: o.C}}
 			return fmt.Sprintf("OJoin %d %d %d (%s)", o.C, o.R, rs, rep)
 		}
-		r.held = &hdHeldJoin{gate: gate, room: o.R, rs: rs, rep: rep}
+		sess, _ := s.hub.GetSessionByPublicId(r.pub[o.C]).(*ClientSession)
+		r.held = &hdHeldJoin{sess: sess, cut: o.C, gate: gate, room: o.R, rs: rs, rep: rep}
 		c.conn.Close()
 		<-c.gone
 		c.mu.Lock()
@@ -1562,7 +1567,9 @@ func hdRunCase(t *testing.T, c *hdCase) (string, *hdRun) {
 		if term == "" {
 			continue
 		}
-		if r.held != nil {
+		if r.held != nil && r.held.sess != nil && s_connIndexOf(sys, r.held.sess) == r.held.cut {
+			// the cut connection is still attached to its session (its handler is inside the held join): the model has
+			// detached it with the cut; once the session is resumed the tables agree again
 			r.inflight = append(r.inflight, len(steps))
 		}
 		steps = append(steps, fmt.Sprintf("(%s, %s, %s)", term, obs, r.digestTerm()))
